@@ -32,7 +32,7 @@ def line_len():
     c.forall_const("L", "int").forall_const("M", "kind")
     P = "lambda k: lin(context, k) == L and col(context, k) > COLS + 1"
     N = "min(context.tkn_scope, ntok(context))"
-    c.ens("result == (False, 0)", "result")
+    # (what a Check returns is ignored by Registry.run_rules: no clause on the result)
     c.ens(f"emitted_count('LINE_TOO_LONG', L) - old(emitted_count('LINE_TOO_LONG', L)) == "
           f"ite(count(0, {N}, {P}) > 0, 1, 0)", "iff")
     c.ens(NOTHING_ELSE.format(name="LINE_TOO_LONG"), "only")
@@ -55,7 +55,7 @@ def functions_count():
     c.env.update(LIMITS)
     c.forall_const("M", "kind")
     c.req("ntok(context) >= 1")
-    c.ens("result == (False, 0)", "result")
+    # (what a Check returns is ignored by Registry.run_rules: no clause on the result)
     c.ens("emitted_total('TOO_MANY_FUNCS') - old(emitted_total('TOO_MANY_FUNCS')) == "
           "ite(context.scope.name == 'GlobalScope' and context.scope.functions > FUNCS, 1, 0)", "iff")
     c.ens(NOTHING_ELSE.format(name="TOO_MANY_FUNCS"), "only")
@@ -73,7 +73,7 @@ def brace():
     # starts with blanks followed by a brace
     c.req("b < ntok(context) and forall(0, b, lambda k: in_ws(context, k, False, False)) "
           "and kind_in(context, b, ('RBRACE', 'LBRACE'))")
-    c.ens("result == (False, 0)", "result")
+    # (what a Check returns is ignored by Registry.run_rules: no clause on the result)
     c.ens("emitted_total('TOO_MANY_LINES') - old(emitted_total('TOO_MANY_LINES')) == "
           "ite(context.scope.name == 'Function' and context.scope.lines > LINES + 1, 1, 0)", "iff")
     c.ens("implies(M not in ('TOO_MANY_LINES', 'SPC_BEFORE_NL', 'BRACE_SHOULD_EOL'), "
@@ -127,7 +127,7 @@ def line_count():
     # finite check on the registry)
     c.req("forall(0, hist_len(context), lambda k: hist_name(context, k) not in ('CheckFuncDeclarations', 'CheckBrace'))")
     NL = "lambda k: kind_in(context, k, ('NEWLINE', 'ESCAPED_NEWLINE'))"
-    c.ens("result == (False, 0)", "result")
+    # (what a Check returns is ignored by Registry.run_rules: no clause on the result)
     c.ens(f"context.scope.lines == old(context.scope.lines) + count(0, min(context.tkn_scope, ntok(context)), {NL})",
           "counter")
     c.ens("emitted_total(M) == old(emitted_total(M))", "silent")
